@@ -330,14 +330,29 @@ class Interp:
             rec = ObRecord(oid, st, "evaluation", 0.0, self.decisions, self._model_of(None) if not formula else None,
                            detail, str(formula))
             if not formula:
-                # a concretely false obligation only counts if the path is feasible
-                if not self.feasible():
+                # a concretely false obligation only counts if the path is feasible.  Branch decisions treat a solver
+                # `unknown` as "may be feasible" (sound for proving: it only adds paths) - so a failure on such a path is a
+                # violation only if the path condition is shown satisfiable; otherwise it is infeasible (vacuous) or undecided
+                try:
+                    r = self.solver.check()
+                except z3.Z3Exception:
+                    r = z3.unknown
+                if r == z3.unsat:
                     rec = ObRecord(oid, "discharged", "z3", 0.0, self.decisions, None, detail, "path infeasible")
-                else:
+                elif r == z3.sat:
                     try:
                         rec.model = self._model_of(self.solver.model())
                     except z3.Z3Exception:
                         rec.model = {}
+                else:
+                    st2, backend2, model2 = smt.second_opinion(self.solver, self.inputs)
+                    if st2 == "discharged":
+                        rec = ObRecord(oid, "discharged", backend2, 0.0, self.decisions, None, detail, "path infeasible")
+                    elif st2 == "failed":
+                        rec = ObRecord(oid, "failed", backend2, 0.0, self.decisions, model2 or {}, detail, str(formula))
+                    else:
+                        rec = ObRecord(oid, "undecided", backend2, 0.0, self.decisions, None, detail,
+                                       "the obligation is false on this path, whose feasibility no solver decided")
             self.records.append(rec)
             return rec.status == "discharged"
         self.solver.push()
